@@ -37,6 +37,7 @@ type Op struct {
 	FFrom int      `json:"forkfrom,omitempty"`
 	Chunk []int    `json:"chunk,omitempty"`
 	From  int      `json:"from,omitempty"`
+	O     int      `json:"o"`
 	P     string   `json:"p,omitempty"`
 	V     string   `json:"v,omitempty"`
 	Items []int    `json:"items"`
@@ -59,6 +60,7 @@ type world struct {
 	hlist   []common.Hash
 	q       *downloader.VerifQueue
 	sched   int
+	base    int // origin of the current session (relative number)
 	nd      int // results handed out so far
 }
 
@@ -298,6 +300,14 @@ func (w *world) apply(op *Op) (res map[string]interface{}) {
 		w.q.Revoke(op.P)
 	case "Results":
 		res["r"] = w.results()
+	case "Reset":
+		// a new sync session at origin op.O: everything the driver tracks per session starts again
+		w.q.NewSession(w.origin+uint64(op.O), w.w)
+		w.base, w.sched, w.nd = op.O, op.O, 0
+		w.last = w.orig
+		if op.O >= 1 {
+			w.last = w.hlist[op.O-1]
+		}
 	default:
 		panic("unknown op " + op.Op)
 	}
@@ -320,7 +330,7 @@ func (w *world) complete() (batches [][][]interface{}, rounds int, perr string) 
 		w.schedule(rest, w.sched+1)
 	}
 	limit := 4*w.n + 8
-	for rounds = 0; rounds < limit && w.nd < w.n; rounds++ {
+	for rounds = 0; rounds < limit && w.nd < w.n-w.base; rounds++ {
 		// requests of the scripted peers time out
 		for _, p := range w.peers {
 			w.q.ExpireBodies(p)
@@ -346,6 +356,8 @@ func args(op *Op) map[string]interface{} {
 		return map[string]interface{}{"p": op.P, "v": op.V, "items": op.Items}
 	case "Results":
 		return map[string]interface{}{}
+	case "Reset":
+		return map[string]interface{}{"o": op.O}
 	default:
 		return map[string]interface{}{"p": op.P}
 	}
